@@ -37,8 +37,9 @@ _c("C06",
    "The real save routines run symbolically over an I/O trace model of std::fs; the solver decides, for every input inside the bounds, "
    "the atomic-replace protocol invariants I1-I4 (data only to the temp file, complete + fsynced before rename, nothing written after, "
    "no in-place write), which imply old-or-new at every crash point under POSIX rename atomicity and fsync durability.",
-   "Covers IndexManager::write_index_to_file (quick) and ResidencyDb::save (thorough); crash points are discharged by the protocol "
-   "argument in DESIGN.md, not enumerated; I/O error paths, save_index's retry loop, LRU checkpoint and DiskCache (tokio) are outside.",
+   "Covers IndexManager::write_index_to_file only (with and without an update section); crash points are discharged by the protocol "
+   "argument in DESIGN.md, not enumerated; ResidencyDb::save (harness does not finish), I/O error paths, save_index's retry loop, LRU "
+   "checkpoint and DiskCache (tokio) are outside.",
    technique="bounded model checking of the real save code over a stubbed std::fs I/O-trace model (Kani/CBMC SAT verdict on protocol invariants)")
 _c("C07",
    "Bounded model checking under an ideal-hash model (uninterpreted injective function in place of MD5/Jenkins): for every valid "
@@ -69,7 +70,7 @@ _c("C17",
    "Bounded model checking of LruManager histories (every history up to the stated length over touch / remove / evict_tail / "
    "evict_to_target / bump_generation / reset, keys from a 4-key alphabet incl. the all-zero key) against a textbook LRU model and "
    "the structural invariant of the intrusive list; lru_file serialize/deserialize round trip and the is_active partition.",
-   "Capacities 1-3, length <= 3 (quick) / 4 (thorough); key map is a BTreeMap under cfg(kani) (hook H6: same map contract); tokio-based "
+   "Capacities 1-3, length <= 3 (quick) / 4 (thorough, capacity 1); key map is a BTreeMap under cfg(kani) (hook H6: same map contract); tokio-based "
    "checkpoint/load/run_cycle outside; two all-zero-key findings recorded in known_findings.json; one defect fixed (59baa81).")
 _c("C18",
    "Bounded model checking of validate_spans (quadratic overlap oracle), plan_archive_merge (plan safety assertions over symbolic "
